@@ -157,7 +157,7 @@ func c05GenOp(rt *rapid.T) prog.Op {
 		op.Ref = rapid.IntRange(-3, 6).Draw(rt, "ref")
 	case "mdel":
 		op.Key = ""
-		n := rapid.IntRange(1, 3).Draw(rt, "n")
+		n := rapid.IntRange(1, 4).Draw(rt, "n")
 		for i := 0; i < n; i++ {
 			op.Keys = append(op.Keys, rapid.SampledFrom(c05Keys).Draw(rt, "mk"))
 			if rapid.Bool().Draw(rt, "withver") {
@@ -166,16 +166,23 @@ func c05GenOp(rt *rapid.T) prog.Op {
 				op.VRefs = append(op.VRefs, -1000000)
 			}
 		}
-		// a key may appear once per request
-		seen := map[string]bool{}
+		// one request may name several versions of one key (the runner drops entries that
+		// resolve to the same ID); a plain entry for a key excludes every other entry for it
+		plain, versioned := map[string]bool{}, map[string]bool{}
 		var ks []string
 		var vr []int
 		for i, kk := range op.Keys {
-			if !seen[kk] {
-				seen[kk] = true
-				ks = append(ks, kk)
-				vr = append(vr, op.VRefs[i])
+			isPlain := op.VRefs[i] < 0
+			if plain[kk] || (isPlain && versioned[kk]) {
+				continue
 			}
+			if isPlain {
+				plain[kk] = true
+			} else {
+				versioned[kk] = true
+			}
+			ks = append(ks, kk)
+			vr = append(vr, op.VRefs[i])
 		}
 		op.Keys, op.VRefs = ks, vr
 		op.Quiet = rapid.Bool().Draw(rt, "quiet")
@@ -219,6 +226,7 @@ func c05Alphabet() []prog.Op {
 		{K: "setver", B: "bk0", Status: "Enabled"},
 		{K: "mdel", B: "bk0", Keys: []string{"k0"}, VRefs: []int{-1}},
 		{K: "mdel", B: "bk0", Keys: []string{"k0"}, VRefs: []int{-1000000}},
+		{K: "mdel", B: "bk0", Keys: []string{"k0", "k0"}, VRefs: []int{1, 0}}, // two versions of one key in one request
 	}
 }
 
